@@ -4,10 +4,14 @@ The router is one pure function; the TLA+ model is a *validity predicate* and an
 oracle* (spec/Router.tla) that TLC evaluates on recorded results of the real
 `lightning::routing::router::find_route` (level: exploration, TLA+ predicate as oracle).
 
-1. TLC enumerates the structured cases of spec/RouterGen.tla (6 small topologies x parameter
-   classes around the boundaries x amounts) and prints them as driver scripts.
+1. TLC enumerates the structured cases of spec/RouterGen.tla (9 small topologies x parameter
+   classes around the boundaries x amounts; among them single paths of 4-6 hops with an
+   htlc_minimum raise at every hop position against proportional fees / limits at every other
+   position, and retries whose previously_failed_channels name announced channels, route-hint
+   hops and unannounced first hops) and prints them as driver scripts.
 2. The Rust engine `router` builds a real NetworkGraph / first hops / route hints / scorer state for
-   every TLC case and for seeded random cases, calls find_route and records graph (as read back
+   every TLC case and for seeded random cases (random graphs; every fifth a long single path with
+   shaped htlc_minimum / htlc_maximum values), calls find_route and records graph (as read back
    from the NetworkGraph), request and result.
 3. TLC validates every record (spec/RouterTrace.tla):  Ok(r) => ValidRoute(g, req, r),
    Err => ~MustNotFail(g, req).  A falsified record (or a panic of find_route) is a violation.
@@ -57,11 +61,14 @@ def tlc_strict(rec, wd, tag):
 def validate(trace_path, wd, tag, parallel=3):
     with open(trace_path) as f:
         lines = [ln for ln in f if ln.strip()]
+    # evenly sized chunks of at most CHUNK records, at least one per parallel TLC
+    nchunks = max(parallel, -(-len(lines) // CHUNK))
+    size = max(1, -(-len(lines) // nchunks))
     chunks = []
-    for i in range(0, len(lines), CHUNK):
-        p = "%s.part%d" % (trace_path, i // CHUNK)
+    for i in range(0, len(lines), size):
+        p = "%s.part%d" % (trace_path, i // size)
         with open(p, "w") as f:
-            f.writelines(lines[i:i + CHUNK])
+            f.writelines(lines[i:i + size])
         chunks.append(p)
     bad, cls = {}, {}
     with ThreadPoolExecutor(max_workers=parallel) as ex:
@@ -175,6 +182,54 @@ def selftest(wd, recs, cls):
     add("fee-limit", "FeeLimit", multi)["req"]["max_fee"] = total_fees(multi) - 1
     add("cltv-limit", "CltvLimit", multi)["req"]["max_cltv"] = sum(h["cltv"] for h in p0) - 1
     add("length-limit", "LengthLimit", multi)["req"]["max_len"] = len(p0) - 1
+    # excluded channels that only the caller knows: a route-hint hop / an unannounced first hop the route
+    # uses is put on the request's previously_failed_channels
+    def kinds_used(r):
+        out = []
+        for p in r["res"]["paths"]:
+            for k, h in zip(path_edges(r, p), p):
+                if k is not None:
+                    e = r["g"]["edges"][k]
+                    announced = any(x["kind"] == "pub" and x["scid"] == e["scid"] for x in r["g"]["edges"])
+                    out.append((e["kind"], announced, h["scid"]))
+        return out
+    via_hint = first(lambda r: any(k == "hint" and not a for k, a, _ in kinds_used(r)))
+    via_priv = first(lambda r: any(k == "first" and not a for k, a, _ in kinds_used(r)))
+    if via_hint is None or via_priv is None:
+        raise vlib.ToolError("binding self-test: no accepted route over a route-hint hop / an unannounced first hop")
+    add("hint-original", None, via_hint)
+    add("excluded-hint-hop", "NotExcluded", via_hint)["req"]["failed"] = \
+        [7, [s for k, a, s in kinds_used(via_hint) if k == "hint" and not a][0]]
+    add("priv-original", None, via_priv)
+    add("excluded-unannounced-first-hop", "NotExcluded", via_priv)["req"]["failed"] = \
+        [[s for k, a, s in kinds_used(via_priv) if k == "first" and not a][0]]
+    # a raise in the MIDDLE of a long path (hop j carries exactly its htlc_minimum and node_j keeps more than
+    # its policy asks): an upstream forwarder with a proportional fee is paid as if the raise did not pass
+    # through it
+    def mid_raise(r):
+        if len(r["res"]["paths"]) != 1 or len(r["res"]["paths"][0]) < 4:
+            return None
+        p = r["res"]["paths"][0]
+        ks = path_edges(r, p)
+        if None in ks or p[-1]["fee"] != r["req"]["amt"]:      # (no raise at the last hop on top)
+            return None
+        E = r["g"]["edges"]
+        fee = lambda k, a: E[k]["base"] + a * E[k]["prop"] // 1000000
+        for j in range(2, len(p) - 1):
+            raised = p[j]["fee"] - fee(ks[j + 1], carried(p, j + 1))
+            if raised <= 0 or carried(p, j) != E[ks[j]]["min"]:
+                continue
+            for i in range(0, j - 1):         # node_i is paid p[i].fee for channel i+1 (upstream of channel j)
+                low = fee(ks[i + 1], carried(p, i + 1) - raised)
+                if E[ks[i + 1]]["prop"] > 0 and low < fee(ks[i + 1], carried(p, i + 1)) <= p[i]["fee"]:
+                    return (i, low)
+        return None
+    raised = first(lambda r: mid_raise(r) is not None)
+    if raised is None:
+        raise vlib.ToolError("binding self-test: no accepted long route with a mid-path htlc_minimum raise")
+    i, low = mid_raise(raised)
+    add("mid-raise-original", None, raised)
+    add("mid-raise-not-charged-upstream", "FeesPaid", raised)["res"]["paths"][0][i]["fee"] = low
     # two parts that share a channel: shrink the shared channel below the joint amount
     shared = None
     for r in recs:
@@ -242,7 +297,7 @@ def run(tier, seed):
     cases.sort(key=lambda c: json.dumps(c, sort_keys=True))
     fams = collections.Counter(c["tag"]["fam"] for c in cases)
     vlib.log("[gen] %d cases from TLC in %.0fs %s" % (len(cases), r["wall_s"], dict(fams)))
-    if set(fams) != {"A", "B", "C", "D", "E"} or len(cases) < 40000:
+    if set(fams) != {"A", "B", "C", "D", "E", "F", "G"} or len(cases) < 60000:
         raise vlib.ToolError("vacuity: case generator produced %s" % dict(fams))
     gen_stats = {"cases": len(cases), "families": dict(fams), "wall_s": round(r["wall_s"], 1)}
     if thorough:
@@ -269,7 +324,7 @@ def run(tier, seed):
 
     # ---- 3. TLC judges every record
     t1 = time.time()
-    total, bad, cls = validate(tpath, wd, "v", parallel=4 if thorough else 3)
+    total, bad, cls = validate(tpath, wd, "v", parallel=4)
     tlc_wall = time.time() - t1
     vlib.log("[tlc] %d records judged in %.0fs, %d falsified" % (total, tlc_wall, len(bad)))
     # one streaming pass over the trace: falsified records, the head (for the self-test), evidence
@@ -370,7 +425,8 @@ def run(tier, seed):
         "exhaustive": False,
     }
     vlib.write_evidence(PID, tier, seed, "exploration", cov, [
-        "graphs have at most 6 public nodes (+ private hint nodes) and 10 channels; amounts <= 2_000_000 msat, "
+        "graphs have at most 7 public nodes (+ private hint nodes) and 10 channels, paths up to 6 hops; "
+        "amounts <= 2_000_000 msat, "
         "proportional fees <= 300_000 ppm (32-bit TLC integers: every carried amount stays below 10^8 msat)",
         "blinded tails / trampoline hops are not generated",
         "the last sentence of the property is judged only under MustNotFail (sufficient conditions for 'some single "
